@@ -43,5 +43,10 @@ def main():
         rows.append((m["name"], m.get("expect", ""), " | ".join(res)))
         print(f"{m['name']:32s} expect={m.get('expect',''):8s} {' | '.join(res)}", flush=True)
     shutil.rmtree(SCR, ignore_errors=True)
+    # scratch build output of the harness crate for the scratch repo
+    import hashlib, glob
+    h = hashlib.sha1(SCR.encode()).hexdigest()[:10]
+    for d in glob.glob(os.path.join(VERIF, ".build", f"kani-crate-{h}")) + glob.glob(os.path.join(VERIF, ".build", f"kani-target-{h}*")):
+        shutil.rmtree(d, ignore_errors=True)
 if __name__ == "__main__":
     main()
